@@ -1,7 +1,7 @@
 (* Tables and comparison for correspondence runs of Model/Build.v. *)
 From Coq Require Import List Arith Bool PeanoNat.
 Import ListNotations.
-Require Import TL.Model.Core TL.Model.CoreTables TL.Model.Build TL.Proofs.BuildLemmas.
+Require Import TL.Model.Core TL.Model.CoreTables TL.Model.Build TL.Proofs.BuildLemmas TL.Proofs.BuildComplete.
 
 Fixpoint lookup_ty {A} (k : ty) (t : list (ty * A)) : option A :=
   match t with [] => None | (k', a) :: r => if ty_eqb k k' then Some a else lookup_ty k r end.
@@ -22,10 +22,26 @@ Definition mech_spec_agree (rt : runtime) (E : env) (orders : list (ty * list no
     | _, _ => false
     end end.
 
+(* the additional hypothesis of the COMPLETENESS theorems (C05_unmarshal_complete / C05_marshal_complete:
+   BuildComplete.orders_strict), decided on a table of observed node orders: the last node of the order filed under t is
+   t's own expanded node, t is not a reference (orders are filed under evaluated annotations), and whatever an order
+   defers -- a cyclic node's type, the reference an expanded node unwraps to -- has an order in the table *)
+Definition orders_strict_ok (orders : list (ty * list node)) : bool :=
+  forallb (fun p =>
+    match rev (snd p) with
+    | root :: _ => ty_eqb (ntype root) (fst p) && negb (ncyc root) && negb (is_ref (fst p)) &&
+                   forallb (node_closed (fun k => lookup_ty k orders)) (snd p)
+    | [] => false
+    end) orders.
+
 (* the hypotheses of the routing theorem (C05_build_routes), decided on every observed node order:
-   every constructor's lookups succeed, for both directions, and the last node is the annotation's own *)
+   every constructor's lookups succeed, for both directions, and the last node is the annotation's own;
+   and (since the completeness theorems) orders_strict_ok: the hypothesis orders_strict of C05_unmarshal_complete /
+   C05_marshal_complete / C07_all_depths_complete *)
 Definition orders_hyps_ok (E : env) (noops : list nat) (orders : list (ty * list node)) : bool :=
   let nl := fun s => existsb (Nat.eqb s) noops in
   forallb (fun p =>
     order_ok E true nl [] (snd p) && order_ok E false nl [] (snd p) &&
-    match rev (snd p) with root :: _ => ty_eqb (norm (ntype root)) (norm (fst p)) | [] => false end) orders.
+    match rev (snd p) with root :: _ => ty_eqb (norm (ntype root)) (norm (fst p)) | [] => false end) orders
+  && orders_strict_ok orders.
+
